@@ -477,6 +477,7 @@ static vp::Verdict check(const Case &c, vp::Ctx &ctx)
 
 static void registerAll()
 {
+    vp::guardExit();
     vp::add<Case>("sbuf_values", vp::fromEntropy<Case>(decode, 3.0), check, show, parse, 1.0, vp::fuzzFromEntropy<Case>(decode));
 }
 
